@@ -66,6 +66,31 @@ def count_steps(op, granularity: str, warm: bool = False) -> int:
     return min(s.steps, STEP_COUNT_CAP)
 
 
+def count_steps_seq(op_list, granularity: str, warm: bool = False) -> list:
+    """Cumulative pre-emption points after each op of a sequence executed by one simulated thread."""
+    if warm and op_list:
+        ops.execute(op_list[0])
+    s = sched.Scheduler(1, sched.ScriptPolicy([]), PKG_DIR, granularity, STEP_COUNT_CAP)
+    marks: list = []
+
+    def body(tid):
+        for op in op_list:
+            ops.execute(op)
+            marks.append(min(s.steps, STEP_COUNT_CAP))
+
+    s.run(body, watchdog=180.0)
+    return marks
+
+
+def steps_seq(op_list, granularity: str, warm: bool = False) -> list:
+    key = granularity + ("W" if warm else "C") + "SEQ" + core.jdump(op_list)
+    got = _STEPS.get(key)
+    if got is None:
+        got = isolate.fork_call(count_steps_seq, (op_list, granularity, warm), timeout=240)
+        _STEPS[key] = got
+    return got
+
+
 def _solo_child(op):
     out, _ = ops.execute(op)
     return {"outcome": out}
